@@ -209,6 +209,53 @@ Theorem C20_written_image_dims_valid : forall a e d, fst (process a e) = Exit0 (
 Proof. exact written_image_dims_valid. Qed.
 Print Assumptions C20_written_image_dims_valid.
 
+(* --- round 4, 2nd pass: render_svg's control flow, the page offset and main's exit status are SOURCE-DERIVED (Gen/C20Cli.v
+   c20_render_*, page_offset_gen, c20_main_err_exit); the hand model equals their interpretation for all inputs --- *)
+Theorem C20_render_svg_is_skeleton : forall a e ds, render_svg a e ds = run_render a e ds.
+Proof. exact render_svg_is_skeleton. Qed.
+Print Assumptions C20_render_svg_is_skeleton.
+
+Theorem C20_skeleton_ok_dims : forall a e sz d, run_render a e sz = ROk d ->
+  0 < is_w d <= MAX_PIXMAP_W /\ 0 < is_h d <= U32_MAX.
+Proof. exact run_render_ok_dims. Qed.
+Print Assumptions C20_skeleton_ok_dims.
+
+Theorem C20_render_messages : render_msgs_ok = true.
+Proof. exact render_msgs. Qed.
+Print Assumptions C20_render_messages.
+
+Theorem C20_render_allocs_follow_fits :
+  alloc_after_fit (c20_render_export ++ c20_render_export_page) false = true /\
+  alloc_after_fit (c20_render_normal ++ c20_render_normal_drawing) false = true.
+Proof. exact render_allocs_follow_fits. Qed.
+Print Assumptions C20_render_allocs_follow_fits.
+
+Theorem C20_page_offset_is_scaled_origin : forall bbox t,
+  page_offset_gen bbox t = (sat_i32 (Qtrunc (rx bbox * t_sx t)%Q), sat_i32 (Qtrunc (ry bbox * t_sy t)%Q)).
+Proof. exact page_offset_is_scaled_origin. Qed.
+Print Assumptions C20_page_offset_is_scaled_origin.
+
+Theorem C20_page_offset_within_pixel : forall bbox t,
+  in_i32 (Qtrunc (rx bbox * t_sx t)%Q) = true -> in_i32 (Qtrunc (ry bbox * t_sy t)%Q) = true ->
+  (Qabs.Qabs (zq (fst (page_offset_gen bbox t)) - rx bbox * t_sx t) < 1)%Q /\
+  (Qabs.Qabs (zq (snd (page_offset_gen bbox t)) - ry bbox * t_sy t) < 1)%Q.
+Proof. exact page_offset_within_pixel. Qed.
+Print Assumptions C20_page_offset_within_pixel.
+
+Theorem C20_page_offset_hand_is_gen : forall a docsize x y w h,
+  page_offset a docsize x y w h = page_offset_gen {| rx := x; ry := y; rw := w; rh := h |} (export_ts a docsize w h).
+Proof. exact page_offset_hand_is_gen. Qed.
+Print Assumptions C20_page_offset_hand_is_gen.
+
+Theorem C20_main_exit_code : c20_main_err_exit = 1 /\ (forall k, outcome_code (Exit1 k) = 1) /\ (forall d, outcome_code (Exit0 d) = 0).
+Proof. exact main_exit_code. Qed.
+Print Assumptions C20_main_exit_code.
+
+(* non-vacuity: origin 10.6 x zoom 2.5 = 26.5 -> pixel 26 (not 25 = 10 * 2.5, not 27) *)
+Example C20_page_offset_nv :
+  page_offset_gen {| rx := (53 # 5)%Q; ry := (-(53 # 5))%Q; rw := 1%Q; rh := 1%Q |} (from_scale (5 # 2)%Q (5 # 2)%Q) = (26, -26).
+Proof. reflexivity. Qed.
+
 Theorem C20_unwrap_ledger : unwrap_ledger_ok = true.
 Proof. exact unwrap_ledger. Qed.
 Print Assumptions C20_unwrap_ledger.
